@@ -118,6 +118,7 @@ type Engine struct {
 	funcByName map[string]*ssa.Function
 	dumped, dumpSeen int
 	curTimerFires    int
+	unknownRetries   int
 	seen             map[string]bool
 }
 
@@ -301,6 +302,15 @@ func (e *Engine) check(st *State, extra *smt.Term, wantModel bool) (smt.Result, 
 		r, m = e.S.Check(dedupe(append(append([]*smt.Term(nil), st.PC...), extra)), vars)
 	} else {
 		r, m = e.S.CheckPC(st.PC, extra, vars)
+	}
+	if r == smt.Unknown && e.unknownRetries < 8 {
+		// once more in a fresh solver process with three times the time; only a second unknown counts
+		e.unknownRetries++
+		old := e.S.TimeoutMs()
+		e.S.Restart(3 * old)
+		e.S.NUnknown--
+		r, m = e.S.Check(dedupe(append(append([]*smt.Term(nil), st.PC...), extra)), vars)
+		e.S.Restart(old)
 	}
 	if r == smt.Sat && vars == nil {
 		m = nil
